@@ -712,9 +712,12 @@ func (sm *Subscriptions) WhenArgs(
 	argNames := jw(slices.Collect(maps.Keys(args)), ",")
 	sm.log(LogOps, "[whenArgs:new] %s (%s)", state, argNames)
 
-	// try to reuse an existing channel
+	// try to reuse an existing channel, only for the same request (equal args,
+	// same ctx), a binding which waits for more args would never wake this one
 	for _, binding := range sm.whenArgs[handler] {
-		if compareArgs(binding.args, args) {
+		if binding.ctx == ctx && len(binding.args) == len(args) &&
+			compareArgs(binding.args, args) {
+
 			return binding.ch
 		}
 	}
